@@ -235,37 +235,38 @@ def docHyp (env : Env) (f : Format) (cfg : Cfg) (ir : IR) : Bool :=
   | .function => functionHyp env cfg ir
   | .argparse => argparseHyp env cfg ir
 
-/-! ### per-entry report of the failed clauses (for attributing a real difference to the docstring layer) -/
-
-def zipIssues (f : String × Param → String × Param → List String) : List (String × Param) → List (String × Param) → List (String × String)
-  | a :: as, b :: bs => (f a b).map (fun c => (b.1, c)) ++ zipIssues f as bs
-  | [], [] => []
-  | _, bs => bs.map (fun b => (b.1, "keys"))
+/-! ### per-entry report of the failed clauses (for attributing a real difference to the docstring layer);
+entries are paired by name here, so a single missing entry does not shift the others -/
 
 def docIssues (env : Env) (f : Format) (cfg : Cfg) (ir : IR) : List (String × String) :=
   match f with
   | .class_ | .pydantic =>
     let d := clsDocIR0 env cfg ir
-    let keysOK := dkeys d.params == dkeys (mergedParams ir)
-    (if keysOK then [] else [("*", "keys")]) ++
-    zipIssues (fun kv0 kv => (if kv0.1 == kv.1 then [] else ["keys"]) ++ (if clsDescOK env kv0 kv then [] else ["doc"]) ++
-                             (if clsDefaultOK kv0 kv then [] else ["default"])) d.params (mergedParams ir) ++
+    (if dkeys d.params == dkeys (mergedParams ir) then [] else [("*", "order")]) ++
+    (mergedParams ir).flatMap (fun kv =>
+      match dget? d.params kv.1 with
+      | none => [(kv.1, "missing")]
+      | some p0 => (if clsDescOK env (kv.1, p0) kv then [] else [(kv.1, "doc")]) ++
+                   (if clsDefaultOK (kv.1, p0) kv then [] else [(kv.1, "default")])) ++
     (if ir.returns.isSome || d.returns.isNone then [] else [("return_type", "presence")])
   | .function =>
     let d := fnDocIR0 env cfg ir
-    let keysOK := dkeys d.params == dkeys ir.params
-    (if keysOK then [] else [("*", "keys")]) ++
-    zipIssues (fun kv0 kv => (if kv0.1 == kv.1 then [] else ["keys"]) ++
-        (if fnDescOK env kv.1 (kv.2.default.isNone || isNoneStrD kv.2.default) kv0.2.doc kv.2.doc then [] else ["doc"]) ++
-        (if fnTypOK cfg kv0.2.typ kv.2.typ then [] else ["typ"]) ++
-        (if fnDefaultOK kv0.2.default kv.2.default then [] else ["default"])) d.params ir.params ++
+    (if dkeys d.params == dkeys ir.params then [] else [("*", "order")]) ++
+    ir.params.flatMap (fun kv =>
+      match dget? d.params kv.1 with
+      | none => [(kv.1, "missing")]
+      | some p0 =>
+        (if fnDescOK env kv.1 (kv.2.default.isNone || isNoneStrD kv.2.default) p0.doc kv.2.doc then [] else [(kv.1, "doc")]) ++
+        (if fnTypOK cfg p0.typ kv.2.typ then [] else [(kv.1, "typ")]) ++
+        (if fnDefaultOK p0.default kv.2.default then [] else [(kv.1, "default")])) ++
     (match ir.returns, d.returns with
      | none, none => []
      | some r, some r0 =>
        (if fnDescOK env "return_type" false r0.doc r.doc then [] else [("return_type", "doc")]) ++
        (if cfg.typeAnnotations || r0.typ == r.typ then [] else [("return_type", "typ")]) ++
        (if r.default.isSome || r0.default.isNone then [] else [("return_type", "default")])
-     | _, _ => [("return_type", "presence")])
+     | some _, none => [("return_type", "missing")]
+     | none, some _ => [("return_type", "presence")])
   | .argparse =>
     (ir.params.filter (fun kv => !argparseParamHyp env cfg kv)).map (fun kv => (kv.1, "doc")) ++
     (if argparseReturnHyp env cfg ir then [] else [("return_type", "docstring")])
